@@ -1,6 +1,6 @@
 (* Props/C14.v -- property C14: a sips: target is never sent in clear; target and transport selection are sound *)
 From Coq Require Import List NArith Bool.
-From EZK Require Import Model.C14 Proofs.C14.
+From EZK Require Import Model.Forms8 Proofs.Forms8 Model.C14 Proofs.C14.
 Import ListNotations.
 Open Scope N_scope.
 
@@ -45,3 +45,14 @@ Proof. exact new_conn_first_ok. Qed.
 
 Theorem C14_pinned_reused : forall (T : Type) (t s : T), create_outgoing (Some t) s = t.
 Proof. exact @pinned_reused. Qed.
+
+(* "IP-literal hosts are used": the destination is the literal as written - family and number; canonicalising it would turn an
+   IPv4-mapped IPv6 literal into an IPv4 destination (and select transports of the other family) *)
+Theorem C14_literal_guard : Tables.ip_literal_verbatim = true.
+Proof. reflexivity. Qed.
+
+Theorem C14_literal_verbatim : Tables.ip_literal_verbatim = true -> forall a, literal_dest a = a.
+Proof. exact literal_here. Qed.
+
+Theorem C14_canonical_literal_refuted : literal_dest_form false (true, mapped_base + 3221225985) = (false, 3221225985).
+Proof. exact mapped_literal_changes_family. Qed.
